@@ -64,3 +64,35 @@ package font
 //@     invariant forall k int :: {runes[k]} 0 <= k && k < len(runes) ==> runes[k] == u[k]
 //@     split u[len(runes)] < 65536
 //@     decreases len(data) - i
+
+// ToUnicode lookup: an explicit bfchar mapping wins; otherwise the FIRST range containing the code maps it to
+// StartUnicode + (code - StartCode); otherwise there is no mapping (empty string).
+//@ func (*CMap) Lookup results (r)
+//@   property C07
+//@   flags readonly
+//@   ensures direct_first: has(cm.charMappings, charCode) ==> same(r, cm.charMappings[charCode])
+//@   ensures first_range: !has(cm.charMappings, charCode) ==> forall k int :: {cm.rangeMappings[k]} 0 <= k && k < len(cm.rangeMappings) && cm.rangeMappings[k].StartCode <= charCode && charCode <= cm.rangeMappings[k].EndCode && (forall j int :: {cm.rangeMappings[j]} 0 <= j && j < k ==> !(cm.rangeMappings[j].StartCode <= charCode && charCode <= cm.rangeMappings[j].EndCode)) ==> same(r, utf8enc(rune(uint32(cm.rangeMappings[k].StartUnicode + (charCode - cm.rangeMappings[k].StartCode)))))
+//@   ensures unmapped: !has(cm.charMappings, charCode) && (forall k int :: {cm.rangeMappings[k]} 0 <= k && k < len(cm.rangeMappings) ==> !(cm.rangeMappings[k].StartCode <= charCode && charCode <= cm.rangeMappings[k].EndCode)) ==> len(r) == 0
+//@   loop 0:
+//@     invariant forall j int :: {cm.rangeMappings[j]} 0 <= j && j < $i ==> !(cm.rangeMappings[j].StartCode <= charCode && charCode <= cm.rangeMappings[j].EndCode)
+
+// fixed-width decoding never reads outside the data and always terminates
+//@ func (*CMap) lookupStringWithWidth results (r)
+//@   property C07, C02
+//@   flags readonly
+//@   requires width >= 1
+//@   loop 0:
+//@     invariant 0 <= i && i <= len(data)
+//@     decreases len(data) - i
+//@   loop 1:
+//@     invariant 0 <= i && i <= len(data)
+//@     decreases len(data) - i
+//@   loop 2:
+//@     invariant 0 <= j && j <= width && i + width <= len(data) && 0 <= i
+
+//@ func (*CMap) LookupString results (r)
+//@   property C07, C02
+//@   flags readonly
+//@   loop 0:
+//@     invariant 0 <= i && i <= len(data)
+//@     decreases len(data) - i
